@@ -101,6 +101,19 @@ func (c *Chip) doInternalAuthenticate(p *apdu.Command, protected bool) ([]byte, 
 		if err != nil {
 			return nil, 0x6A80
 		}
+		if k.SteerFirstOctet != nil {
+			// a genuine signature like any other, chosen among up to 3000 nonces so that the first octet of
+			// the plain r||s form is the wanted one (30 looks like the start of a DER SEQUENCE, 00 is a leading zero)
+			for i := 0; i < 3000 && k.Curve.FixedBytes(r)[0] != *k.SteerFirstOctet; i++ {
+				nonce = c.randScalar(k.Curve)
+				if r, s, err = k.Curve.Sign(k.Priv, hh.Sum(nil), nonce); err != nil {
+					return nil, 0x6A80
+				}
+			}
+			if k.Curve.FixedBytes(r)[0] == *k.SteerFirstOctet {
+				c.AASteered++
+			}
+		}
 		if k.DERSig {
 			sig = derSig(r, s)
 		} else {
